@@ -2,6 +2,7 @@ package main
 
 import (
 	"fmt"
+	"runtime"
 	"strings"
 
 	"google.golang.org/protobuf/encoding/protowire"
@@ -118,7 +119,17 @@ func opsString(ops []decOp) string {
 
 func runAndCheck(c *fw.Ctx, stream string, fast bool, data []byte, ops []decOp) {
 	c.Journal(fmt.Sprintf("C03 %s fast=%v %s | %s", stream, fast, trunc(hexs(data), 1500), trunc(opsString(ops), 2000)))
+	var ms0, ms1 runtime.MemStats
+	runtime.ReadMemStats(&ms0)
 	rq, rp, results, offsets := runDecProgram(fast, data, ops)
+	runtime.ReadMemStats(&ms1)
+	// memory in proportion to the input: everything the program allocated (results, the harness's own
+	// rendering of them) against a generous linear budget — a buffer sized from a declared length that the
+	// input does not back blows it by orders of magnitude
+	if got, budget := ms1.TotalAlloc-ms0.TotalAlloc, uint64(1<<16+4096*len(ops)+1024*len(data)); got > budget {
+		c.Violate(fw.Violation{Stream: stream, Signature: "alloc/out-of-proportion", What: "a sequence of decoder calls allocated memory out of proportion to the input",
+			Input: fmt.Sprintf("fast=%v data=%s ops=%s", fast, trunc(hexs(data), 400), trunc(opsString(ops), 400)), Expected: fmt.Sprintf("at most %d bytes for %d input bytes and %d calls", budget, len(data), len(ops)), Got: fmt.Sprintf("%d bytes allocated", got)})
+	}
 	reportHeld(c, stream)
 	c.ModelCmp(stream, rq, rp, stripAlloc)
 	out := oracleDec(c, stream, fast, data, ops, results, offsets)
